@@ -1187,8 +1187,8 @@ def corpus_layers():
 def run(ctx):
     R = Run(ctx)
     rng = ctx.rng
-    R.full_limit = ctx.n(9, 49)
-    R.k = ctx.n(3, 16)
+    R.full_limit = ctx.n(6, 49)
+    R.k = ctx.n(2, 16)
     R.obs = Observer()
     import logging
     logging.disable(logging.CRITICAL)
@@ -1205,7 +1205,7 @@ def run(ctx):
             by_origin.setdefault(o, []).append(spec)
         for o, specs in sorted(by_origin.items(), key=lambda kv: str(kv[0])):
             batches.append((specs, o))
-        n_exact = ctx.n(12, 100)
+        n_exact = ctx.n(10, 100)
         exact = [gen_exact_layer(rng, i) for i in range(n_exact)]
         per = 6
         for k in range(0, len(exact), per):
@@ -1244,9 +1244,9 @@ def run(ctx):
     if os.environ.get('VERIF_C02_DEBUG'):
         print('implementation phase done at %.1f s' % (_t.time() - ctx.t0))
     ctx.corr_check('served', imports, 'tlayer * origin_req * address * option coord', R.served[0],
-                   "fun c => let '(s, srv, a, obs) := c in ocoord_eqb (served s srv a) obs", lambda i: R.served[1][i], defs=defs)
+                   "fun c => let '(s, srv, a, obs) := c in ocoord_eqb (served s srv a) obs", lambda i: R.served[1][i], defs=defs, shard=1200)
     ctx.corr_check('client_rect', imports, 'tlayer * origin_req * address * Z * option bbox', R.crect[0],
-                   "fun c => let '(s, srv, a, tol, obs) := c in obbox_close tol (client_rect s srv a) obs", lambda i: R.crect[1][i], defs=defs)
+                   "fun c => let '(s, srv, a, tol, obs) := c in obbox_close tol (client_rect s srv a) obs", lambda i: R.crect[1][i], defs=defs, shard=1200)
     ctx.corr_check('tms_tilemap', imports, 'tlayer * tms_doc', R.tmsdoc[0],
                    "fun c => let '(s, d) := c in tms_doc_eqb (tms_tilemap s) d", lambda i: R.tmsdoc[1][i], defs=defs)
     ctx.corr_check('wmts_matrix_set', imports, 'tlayer * Z * option (list tile_matrix)', R.wmtsdoc[0],
